@@ -5,6 +5,7 @@ from bounded import harness, oracle
 import gfapy
 
 SEGS = ["A", "B", "C", "D"]
+COPY = "g2 = gfapy.Gfa(version=g.version)\nfor l in g.lines: g2.add_line(l.clone())\ng = g2\n"
 
 
 def gfa1_pool():
@@ -31,12 +32,12 @@ def gfa2_pool():
 
 
 def check(case):
-    version, lines, rm = case
+    version, lines, rm, via = case
     fails = []
     text = "\n".join(lines)
     def fail(sig, what):
-        fails.append(dict(signature="C16:" + sig, what=what, case=dict(version=version, lines=lines, rm=rm),
-                          reproducer="import gfapy\ng = gfapy.Gfa(%r)\n%sprint(sorted(sorted(s.name for s in c) for c in g.connected_components()), g.n_dovetails, g.n_containments, g.n_internals, g.n_dead_ends)" % (lines, ("g.rm(%r)\n" % rm) if rm else "")))
+        fails.append(dict(signature="C16:" + sig, what=what, case=dict(version=version, lines=lines, rm=rm, via=via),
+                          reproducer="import gfapy\ng = gfapy.Gfa(%r)\n%s%sprint(sorted(sorted(s.name for s in c) for c in g.connected_components()), g.n_dovetails, g.n_containments, g.n_internals, g.n_dead_ends)" % (lines, ("g.rm(%r)\n" % rm) if rm else "", COPY if via == "copy" else "")))
     try:
         g = gfapy.Gfa(lines, vlevel=1)
         tm = oracle.TextModel(text, version)
@@ -52,6 +53,16 @@ def check(case):
                 tm.add(oracle.tokenize(ref, version))
             except gfapy.Error:
                 pass
+        if via == "copy":
+            # the same document rebuilt line by line from detached clones: the counts are those of the copy, the source keeps its own
+            src = g
+            before = (sorted(sorted(s.name for s in c) for c in src.connected_components()), src.n_dovetails, src.n_containments, src.n_internals, src.n_dead_ends, str(src))
+            g = gfapy.Gfa(version=version, vlevel=1)
+            for l in src.lines:
+                g.add_line(l.clone())
+            after = (sorted(sorted(s.name for s in c) for c in src.connected_components()), src.n_dovetails, src.n_containments, src.n_internals, src.n_dead_ends, str(src))
+            if before != after:
+                fail("copying-changes-the-source", "before %s after %s" % (before[:5], after[:5]))
         ttext = tm.text()
         want = oracle.components(ttext, version)
         got = sorted(sorted(s.name for s in c) for c in g.connected_components())
@@ -77,7 +88,7 @@ def check(case):
                 fail("%s-differs" % name, "want %d got %d" % (w, gt))
     except Exception as e:
         fail("raises-%s" % type(e).__name__, harness.short(e, 200))
-    return dict(key=(version, tuple(lines), rm), nontrivial=len(lines) > 2, failures=fails, sample=dict(lines=lines, rm=rm))
+    return dict(key=(version, tuple(lines), rm, via), nontrivial=len(lines) > 2, failures=fails, sample=dict(lines=lines, rm=rm))
 
 
 def cases(tier, seed):
@@ -102,7 +113,7 @@ def cases(tier, seed):
             if rng.random() < 0.5:
                 lines.append("P\tpz\tA+\t*" if version == "gfa1" else "O\tpz\tA+")      # a named line that is not a segment (no effect on the topology)
             rm = rng.choice([None, None, rng.choice(segs)])
-            out.append((version, lines, rm))
+            out.append((version, lines, rm, rng.choice(["direct", "direct", "copy"])))
     return out
 
 
@@ -111,6 +122,6 @@ if __name__ == "__main__":
     cs = cases(tier, seed)
     res = harness.run(cs, check,
                       rule="seeded random graphs: 1-4 segments, 0-5 edges from an orientation-complete pool (GFA1: L for every segment pair incl. self-links and hairpins, C; GFA2: E lines for every orientation pair x "
-                           "interval kinds pfx/sfx/whole/inner on both sides), optionally followed by rm of one segment; oracle = union-find over the dovetail records of the (text-model) document and record counts. "
+                           "interval kinds pfx/sfx/whole/inner on both sides), optionally followed by rm of one segment, and in a third of the cases rebuilt line by line from clones (g2.add_line(l.clone())); oracle = union-find over the dovetail records of the (text-model) document and record counts. "
                            "distinct = distinct (document, removal)", bound="<=4 segments, <=5 edges, <=1 removal", exhaustive=False)
     harness.emit(res)
